@@ -32,6 +32,10 @@ META = {
 }
 
 
+class ScriptMismatch(Exception):
+    """the implementation shuffled a list whose length is not the number of alternatives of the call"""
+
+
 class Script:
     """stands for the `random` module inside pyrealb.utils"""
 
@@ -44,7 +48,9 @@ class Script:
         self.shuffles += 1
         p = self.perm
         if p is None or sorted(p) != list(range(len(x))):
-            raise core.Infra("scripted shuffle: no valid outcome for a list of %d (perm=%r)" % (len(x), p))
+            if p is None:
+                raise core.Infra("scripted shuffle: no outcome scripted")
+            raise ScriptMismatch("shuffle of a list of %d, the call has %d alternatives" % (len(x), len(p)))
         old = list(x)
         x[:] = [old[i] for i in p]
 
@@ -66,6 +72,8 @@ def make_alts(alts, log, site="x"):
     for i, c in enumerate(alts):
         if c == "f":
             res.append((lambda i=i: (log.append(i), "r%d@%s" % (i, site))[1]))
+        elif c == "l":      # an alternative that is itself a python list (a value like any other)
+            res.append(["r%d@%s" % (i, site), "x"])
         else:
             res.append("r%d@%s" % (i, site))
     return res
@@ -76,6 +84,10 @@ def idx_of(v):
         return None
     if isinstance(v, str) and v.startswith("r"):
         return int(v[1:].split("@")[0])
+    if isinstance(v, list) and len(v) == 2 and isinstance(v[0], str) and v[0].startswith("r") and v[1] == "x":
+        return int(v[0][1:].split("@")[0])
+    if isinstance(v, str):
+        return "not-an-alternative:" + v
     return "callable-returned"  # an uncalled callable escaped
 
 
@@ -91,6 +103,9 @@ def impl_oneof(line, U, sc):
         alts, log = sites[site]
         del log[:]
         sc.perm = c["perm"]
+        if c.get("load"):   # a language switch between two calls: the histories are per alternatives, not per language
+            import pyrealb
+            (pyrealb.loadEn if c["load"] == "en" else pyrealb.loadFr)()
         try:
             v = U.oneOf(*alts) if c["style"] == "args" else U.oneOf(alts)
             out.append([idx_of(v), list(log)])
@@ -194,6 +209,30 @@ def gen_lines(ctx, deep=False):
             sid, n, alts, style = rng.choice(sites)
             calls.append({"site": sid, "key": site_key(sid, alts, style), "alts": alts, "perm": rng.sample(range(n), n), "style": style})
         lines.append({"op": "oneof", "calls": calls})
+    # language switches between the calls of one site and of several sites
+    for _ in range(300 if ctx.tier == "quick" else 10000):
+        k = rng.choice([1, 1, 2])
+        sites = []
+        for s_ in range(k):
+            n = rng.choice([2, 2, 3, 4])
+            sites.append(("L%d" % s_, n, "".join(rng.choice("vvvf") for _ in range(n)), rng.choice(["list", "args"])))
+        calls = []
+        for _ in range(rng.randint(6, 24)):
+            sid, n, alts, style = rng.choice(sites)
+            c = {"site": sid, "key": site_key(sid, alts, style), "alts": alts, "perm": rng.sample(range(n), n), "style": style}
+            if rng.random() < 0.5:
+                c["load"] = rng.choice(["en", "fr"])
+            calls.append(c)
+        lines.append({"op": "oneof", "calls": calls})
+    # alternatives that are themselves lists, given as separate arguments (the first one a list) or inside the list
+    for n in (2, 3):
+        for pat in set("".join(p) for p in itertools.product("vfl", repeat=n)):
+            if "l" not in pat:
+                continue
+            for style in ("args", "list"):
+                perms = list(itertools.permutations(range(n)))
+                for combo in (itertools.product(perms, repeat=3) if n == 2 else [[rng.choice(perms) for _ in range(4)] for _ in range(12)]):
+                    lines.append(history_single(n, list(combo), alts=pat, style=style))
     # sites that differ only in object identity / only in values: same length, same callable pattern
     for _ in range(300 if ctx.tier == "quick" else 10000):
         n = rng.choice([2, 2, 3, 4])
@@ -221,7 +260,7 @@ def gen_lines(ctx, deep=False):
         lines.append({"op": "oneof", "calls": calls})
     # choice and mix
     for n in range(0, 6):
-        for pat in set("".join(p) for p in itertools.product("vf", repeat=n)):
+        for pat in set("".join(p) for p in itertools.product("vf", repeat=n)) | (set("".join(p) for p in itertools.product("vfl", repeat=n) if "l" in p) if 2 <= n <= 3 else set()):
             for r in range(max(n, 1)):
                 for style in ("list", "args"):
                     if n == 1 and style == "args":
@@ -229,7 +268,7 @@ def gen_lines(ctx, deep=False):
                     lines.append({"op": "choice", "alts": pat, "r": r, "style": style})
     for n in range(0, 5):
         for perm in itertools.permutations(range(n)):
-            for pat in (["v" * n, "f" * n] + ["".join(rng.choice("vf") for _ in range(n))]):
+            for pat in (["v" * n, "f" * n] + ["".join(rng.choice("vf") for _ in range(n))] + (["l" + "v" * (n - 1), "v" * (n - 1) + "l", "l" * n] if n >= 2 else [])):
                 for style in ("list", "args"):
                     if n == 1 and style == "args":
                         continue  # mix(x) with a single non-list argument is the documented list form
@@ -247,7 +286,7 @@ def oracle(ctx, line, ans):
         for c, r in zip(line["calls"], ans["res"]):
             n = len(c["alts"])
             if r == "err":
-                ctx.fail("oneOf:exception", line, "oneOf raised")
+                ctx.fail("oneOf:exception", line, "oneOf raised, or shuffled a list of another length than the alternatives of the call")
                 return
             idx, called = r
             if n == 0:
